@@ -1,0 +1,48 @@
+//go:build verif
+
+package keyper
+
+import (
+	"context"
+
+	"github.com/jackc/pgx/v4"
+	"github.com/jackc/pgx/v4/pgxpool"
+
+	"github.com/shutter-network/rolling-shutter/rolling-shutter/keyper/kprconfig"
+	"github.com/shutter-network/rolling-shutter/rolling-shutter/p2p"
+)
+
+// VerifEonPubKeyHandler exposes one polling tick of the eon public key handler.
+type VerifEonPubKeyHandler struct{ h *eonPubKeyHandler }
+
+// VerifNewEonPubKeyHandler builds the handler with the fields newEonPubKeyHandler takes from the core.
+func VerifNewEonPubKeyHandler(
+	dbpool *pgxpool.Pool,
+	config *kprconfig.Config,
+	messaging p2p.Messaging,
+	handler EonPublicKeyHandlerFunc,
+	broadcast bool,
+) *VerifEonPubKeyHandler {
+	return &VerifEonPubKeyHandler{&eonPubKeyHandler{
+		dbpool:             dbpool,
+		config:             config,
+		messaging:          messaging,
+		eonPubkeyHandler:   handler,
+		broadcastEonPubKey: broadcast,
+	}}
+}
+
+// Tick runs queryAndHandleNewEonPubKeys once.
+func (v *VerifEonPubKeyHandler) Tick(ctx context.Context) error {
+	return v.h.queryAndHandleNewEonPubKeys(ctx)
+}
+
+// VerifNewCore returns a KeyperCore with only the fields handleOnChainChanges needs.
+func VerifNewCore(config *kprconfig.Config, dbpool *pgxpool.Pool) *KeyperCore {
+	return &KeyperCore{config: config, dbpool: dbpool}
+}
+
+// VerifHandleOnChainChanges calls handleOnChainChanges.
+func (kpr *KeyperCore) VerifHandleOnChainChanges(ctx context.Context, tx pgx.Tx, syncBlockNumber uint64) error {
+	return kpr.handleOnChainChanges(ctx, tx, syncBlockNumber)
+}
